@@ -376,7 +376,7 @@ def u16(led, rid, ctx):
     CUR = 5
     n = 0
     for mode in ("OneUIP", "AllDecision"):
-        for level in (0, 2, CUR):
+        for level in (0, 1, 2, CUR):
             for dec in (0, 1):
                 if level == 0 and dec:
                     continue
@@ -418,9 +418,9 @@ def u16(led, rid, ctx):
                     want = "nogood" if dec else "queue"
                 n += 1
                 led.check(effects == {want}, rid, "route:%s:level=%s:decision=%d" % (
-                          mode, {0: "root", 2: "earlier", CUR: "current"}[level], dec), f.span, "-> %s" % want,
+                          mode, {0: "root", 1: "first", 2: "earlier", CUR: "current"}[level], dec), f.span, "-> %s" % want,
                           "add_predicate_to_conflict_nogood (%s) sends a predicate of %s that is %sa decision to %s "
-                          "instead of %s: %s" % (mode, {0: "the root level", 2: "an earlier level", CUR: "the current level"}[level],
+                          "instead of %s: %s" % (mode, {0: "the root level", 1: "decision level 1", 2: "an earlier level", CUR: "the current level"}[level],
                                                  "" if dec else "not ", sorted(effects) or "nowhere", want,
                                                  {"dropped": "a root fact must not enter the nogood",
                                                   "queue": "it has to be resolved away, the learned nogood is not asserting otherwise",
